@@ -166,7 +166,7 @@ namespace ForRange
     index type: if every addition the loop performs is exact, the loop mypyc emits terminates and the index
     register takes exactly the values of Python's `range(start, stop, step)`, in order.  For the `int` index
     type (`CPyTagged_Add`) the hypothesis is vacuous — see `forRange_visits_int`. -/
-theorem forRange_visits_partial (st et : RTy) (step : Int) (hs : step ≠ 0) :
+theorem forRange_visits_partial (st et : RTy) (step : Int) (hs : step ≠ 0) (hok : StepLitOk st et step = true) :
     ∀ (n : Nat) (start stop : Int) (fuel : Nat),
       rangeLen start stop step = n → n < fuel →
       NoStepOverflow (indexType st et) start stop step →
@@ -194,18 +194,29 @@ theorem forRange_visits_partial (st et : RTy) (step : Int) (hs : step ≠ 0) :
         have hstep := (cond_iff_len st et start stop step hs).2 hc
         have hun := pyRange_unfold start stop step hstep
         have hfit : (indexType st et).fits (start + step) = true := hno start (by rw [hun]; simp)
-        rw [emit_next st et step start hfit]
+        rw [emit_next st et step start hok hfit]
         have hno' : NoStepOverflow (indexType st et) (start + step) stop step := by
           intro v hv; exact hno v (by rw [hun]; simp [hv])
         rw [ih (start + step) stop fuel (by omega) (by omega) hno', hun]
         simp
 
-/-- the `int` index type needs no hypothesis: `CPyTagged_Add` is exact -/
+/-- for the `int` index type `NoStepOverflow` is vacuous (`CPyTagged_Add` is exact); what remains is that the
+    step literal is a short int -/
 theorem forRange_visits_int (st et : RTy) (hidx : indexType st et = .int) (step : Int) (hs : step ≠ 0)
+    (hok : RTy.short.fits step = true)
     (start stop : Int) (fuel : Nat) (hf : rangeLen start stop step < fuel) :
     loop (emit st et step) stop fuel start = some (pyRange start stop step) :=
-  forRange_visits_partial st et step hs _ start stop fuel rfl hf
+  forRange_visits_partial st et step hs (by simp [StepLitOk, hidx, RTy.isFixed, hok]) _ start stop fuel rfl hf
     (by intro v _; rw [hidx]; rfl)
+
+/-- … and without that hypothesis it fails too (finding F12b): `for i in range(a, b, 2**62)` on plain `int`s.
+    `Integer(self.step)` is emitted as a short-int literal; `2**62` doubled is `2**63`, which `CPyTagged_Add`
+    reads as the short int `-2**62`: the loop walks downwards from `a` for ever. -/
+theorem not_forRange_visits_bigstep :
+    visitN (emit .int .int 4611686018427387904) 9223372036854775808 3 0
+      = [0, -4611686018427387904, -9223372036854775808]
+    ∧ pyRange 0 9223372036854775808 4611686018427387904 = [0, 4611686018427387904]
+    ∧ StepLitOk .int .int 4611686018427387904 = false := by decide
 
 /-- the index type is `int` unless both operands are short ints or the end operand is native -/
 example : indexType .int .int = .int ∧ indexType .short .int = .int ∧ indexType .i64 .short = .int := by decide
@@ -217,10 +228,10 @@ example : indexType .int .int = .int ∧ indexType .short .int = .int ∧ indexT
 theorem not_forRange_visits :
     ¬ (∀ (st et : RTy) (step : Int), step ≠ 0 → ∀ (start stop : Int) (fuel : Nat),
         (indexType st et).fits start = true → (indexType st et).fits stop = true →
-        rangeLen start stop step < fuel →
+        StepLitOk st et step = true → rangeLen start stop step < fuel →
         loop (emit st et step) stop fuel start = some (pyRange start stop step)) := by
   intro h
-  have := h .i64 .i64 2 (by decide) 9223372036854775804 9223372036854775807 3 (by decide) (by decide) (by decide)
+  have := h .i64 .i64 2 (by decide) 9223372036854775804 9223372036854775807 3 (by decide) (by decide) (by decide) (by decide)
   revert this
   decide
 
